@@ -29,16 +29,27 @@ Proof.
     rewrite IH. replace (N.to_nat n) with (S (N.to_nat (N.pred n))) by lia. reflexivity.
 Qed.
 
+Lemma revT_rev {A} (l : list A) : revT l = rev l.
+Proof. unfold revT. now rewrite rev_append_rev, app_nil_r. Qed.
+
+Lemma lenN_aux_eq {A} (l : list A) acc : lenN_aux l acc = acc + N.of_nat (length l).
+Proof.
+  revert acc; induction l as [|x t IH]; intros acc; cbn [lenN_aux length]; [lia|].
+  rewrite IH. lia.
+Qed.
+Lemma lenN_eq {A} (l : list A) : lenN l = N.of_nat (length l).
+Proof. unfold lenN. now rewrite lenN_aux_eq. Qed.
+
 Lemma lenN_app {A} (a b : list A) : lenN (a ++ b) = lenN a + lenN b.
-Proof. unfold lenN. rewrite app_length. lia. Qed.
+Proof. rewrite ?lenN_eq. rewrite app_length. lia. Qed.
 Lemma lenN_nil {A} : lenN (@nil A) = 0. Proof. reflexivity. Qed.
 Lemma lenN_cons {A} (x : A) l : lenN (x :: l) = 1 + lenN l.
-Proof. unfold lenN. cbn [length]. lia. Qed.
+Proof. rewrite ?lenN_eq. cbn [length]. lia. Qed.
 
 Lemma lenN_firstN {A} (l : list A) n : lenN (firstN l n) = N.min n (lenN l).
-Proof. unfold lenN. rewrite firstN_firstn, firstn_length. lia. Qed.
+Proof. rewrite ?lenN_eq. rewrite firstN_firstn, firstn_length. lia. Qed.
 Lemma lenN_skipN {A} (l : list A) n : lenN (skipN l n) = lenN l - n.
-Proof. unfold lenN. rewrite skipN_skipn, skipn_length. lia. Qed.
+Proof. rewrite ?lenN_eq. rewrite skipN_skipn, skipn_length. lia. Qed.
 Lemma lenN_sliceN {A} (l : list A) a n : lenN (sliceN l a n) = N.min n (lenN l - a).
 Proof. unfold sliceN. now rewrite lenN_firstN, lenN_skipN. Qed.
 
@@ -47,9 +58,9 @@ Proof. now rewrite skipN_skipn. Qed.
 Lemma firstN_0 {A} (l : list A) : firstN l 0 = [].
 Proof. now rewrite firstN_firstn. Qed.
 Lemma skipN_all {A} (l : list A) n : lenN l <= n -> skipN l n = [].
-Proof. unfold lenN. intros. rewrite skipN_skipn. apply skipn_all2. lia. Qed.
+Proof. rewrite ?lenN_eq. intros. rewrite skipN_skipn. apply skipn_all2. lia. Qed.
 Lemma firstN_all {A} (l : list A) n : lenN l <= n -> firstN l n = l.
-Proof. unfold lenN. intros. rewrite firstN_firstn. apply firstn_all2. lia. Qed.
+Proof. rewrite ?lenN_eq. intros. rewrite firstN_firstn. apply firstn_all2. lia. Qed.
 
 Lemma skipn_skipn' {A} (a b : nat) (l : list A) : skipn a (skipn b l) = skipn (b + a) l.
 Proof.
@@ -65,24 +76,24 @@ Proof. rewrite firstN_firstn, skipN_skipn. apply firstn_skipn. Qed.
 
 Lemma skipN_app_l {A} (a b : list A) n : n <= lenN a -> skipN (a ++ b) n = skipN a n ++ b.
 Proof.
-  unfold lenN. intros. rewrite !skipN_skipn, skipn_app.
+  rewrite ?lenN_eq. intros. rewrite !skipN_skipn, skipn_app.
   replace (N.to_nat n - length a)%nat with 0%nat by lia. reflexivity.
 Qed.
 Lemma skipN_app_r {A} (a b : list A) n : lenN a <= n -> skipN (a ++ b) n = skipN b (n - lenN a).
 Proof.
-  unfold lenN. intros. rewrite !skipN_skipn, skipn_app.
+  rewrite ?lenN_eq. intros. rewrite !skipN_skipn, skipn_app.
   rewrite skipn_all2 by lia. cbn [app]. f_equal. lia.
 Qed.
 Lemma skipN_app_len {A} (a b : list A) : skipN (a ++ b) (lenN a) = b.
 Proof. rewrite skipN_app_r by lia. rewrite N.sub_diag. apply skipN_0. Qed.
 Lemma firstN_app_l {A} (a b : list A) n : n <= lenN a -> firstN (a ++ b) n = firstN a n.
 Proof.
-  unfold lenN. intros. rewrite !firstN_firstn, firstn_app.
+  rewrite ?lenN_eq. intros. rewrite !firstN_firstn, firstn_app.
   replace (N.to_nat n - length a)%nat with 0%nat by lia. cbn [firstn]. apply app_nil_r.
 Qed.
 Lemma firstN_app_r {A} (a b : list A) n : lenN a <= n -> firstN (a ++ b) n = a ++ firstN b (n - lenN a).
 Proof.
-  unfold lenN. intros. rewrite !firstN_firstn, firstn_app.
+  rewrite ?lenN_eq. intros. rewrite !firstN_firstn, firstn_app.
   rewrite firstn_all2 by lia. f_equal. f_equal. lia.
 Qed.
 Lemma firstN_app_len {A} (a b : list A) : firstN (a ++ b) (lenN a) = a.
@@ -128,9 +139,9 @@ Proof.
 Qed.
 
 Lemma nthN_app_l {A} (a b : list A) n d : n < lenN a -> nthN (a ++ b) n d = nthN a n d.
-Proof. unfold lenN. intros. rewrite !nthN_nth. apply app_nth1. lia. Qed.
+Proof. rewrite ?lenN_eq. intros. rewrite !nthN_nth. apply app_nth1. lia. Qed.
 Lemma nthN_app_r {A} (a b : list A) n d : lenN a <= n -> nthN (a ++ b) n d = nthN b (n - lenN a) d.
-Proof. unfold lenN. intros. rewrite !nthN_nth, app_nth2 by lia. f_equal. lia. Qed.
+Proof. rewrite ?lenN_eq. intros. rewrite !nthN_nth, app_nth2 by lia. f_equal. lia. Qed.
 
 (* ---- little endian ---- *)
 Lemma le32_length v : lenN (le32 v) = 4. Proof. reflexivity. Qed.
